@@ -74,7 +74,7 @@ def main():
             out['metadata'] = [list(x) for x in GRPCService(cfg).metadata()]
         elif kind == 'app_frame':
             cfg = ConfigService(code, tracepoints=TracepointConfigService())
-            out['frames'] = [list(cfg.is_app_frame(p)) for p in case['paths']]
+            out['frames'] = [list(cfg.is_app_frame(p.replace('<exec_prefix>', sys.exec_prefix))) for p in case['paths']]
         elif kind == 'app_root':
             import deep
             from deep.api.deep import Deep
